@@ -310,12 +310,12 @@ def run(ck):
             try:
                 o = R.to_obj(P, d)
                 e = P.encode(o)
+                if len(o) != len(e):
+                    ck.fail("len-differs-from-encoding", "len = %d, encoding has %d octets: %s" % (len(o), len(e), R.text(d)[:200]), rp)
                 d2 = R.from_obj(P, P.decode(e))
                 if d2 != R.norm(d):
                     ck.fail("reencode-changes-pdu" if not rw0(R.norm(d), d2) else "connect-rw0-not-encoded",
                             "decode(%s) = %s, but decode(encode(.)) = %s" % (b.hex()[:200], R.text(d)[:200], R.text(d2)[:200]), rp)
-                if len(o) != len(e):
-                    ck.fail("len-differs-from-encoding", "len = %d, encoding has %d octets: %s" % (len(o), len(e), R.text(d)[:200]), rp)
             except Exception as ex:  # noqa
                 ck.fail("reencode-raises", "decode(%s) = %s, encode raised %s" % (b.hex()[:200], R.text(d)[:200], exc_name(ex)), rp)
         return d
